@@ -145,3 +145,7 @@ func Ite(c bool, a, b int) int {
 	}
 	return b
 }
+
+// ConcreteClock makes every clock reading under the symbolic executor a concrete instant
+// (start + k*step nanoseconds) for harnesses whose property does not depend on time; natively a no-op.
+func ConcreteClock(startNanos, stepNanos int) {}
